@@ -35,6 +35,7 @@ class ProbeBase(BaseException):
 
 def run_case(case):
     import warnings
+    from datetime import timedelta
     import async_solipsism
     from frequenz.sdk.actor import Actor
     warnings.simplefilter("ignore")
@@ -111,6 +112,9 @@ def run_case(case):
             self.spec = spec
             if spec["limit"] != "default":
                 self._restart_limit = spec["limit"]
+            d = spec.get("delay")
+            if d and d["how"] == "instance":        # RESTART_DELAY set on the instance
+                self.RESTART_DELAY = timedelta(milliseconds=d["ms"])
             self.invocation = 0
             self._stop_entry = None
 
@@ -361,7 +365,13 @@ def run_case(case):
             pass
 
     async def main():
-        actors = [classes[spec.get("cls", "A")](i, spec) for i, spec in enumerate(case["actors"])]
+        def make(i, spec):
+            cls = classes[spec.get("cls", "A")]
+            d = spec.get("delay")
+            if d and d["how"] == "subclass":         # RESTART_DELAY overridden in a subclass
+                cls = type(cls.__name__ + "Delay", (cls,), {"RESTART_DELAY": timedelta(milliseconds=d["ms"])})
+            return cls(i, spec)
+        actors = [make(i, spec) for i, spec in enumerate(case["actors"])]
         t0 = loop.time()
         for op in case["ops"]:
             due = t0 + op[0] / 1000.0
@@ -420,7 +430,7 @@ def run_case(case):
         for a in actors:
             harness_tasks.append(asyncio.create_task(call_op(a.stop)))
         hung = False
-        for _ in range(60):
+        for _ in range(240):
             await orig_sleep(1.0)
             if all(t.done() for t in harness_tasks):
                 break
@@ -537,9 +547,16 @@ def c_limit(l, default):
     return "None" if l is None else f"(Some {cnat(l)})"
 
 
+def actor_delay_us(a):
+    """configured RESTART_DELAY of a probe in microseconds, None = the base-class constant"""
+    d = a.get("delay")
+    return None if not d or d["how"] == "base" else d["ms"] * 1000
+
+
 def c_config(case, obs):
     lims = clist([a["limit"] for a in case["actors"]], lambda l: c_limit(l, obs["default_limit"]))
-    return f"(mkcfg {lims})"
+    delays = clist([actor_delay_us(a) for a in case["actors"]], lambda d: "None" if d is None else f"(Some {cZ(d)})")
+    return f"(mkcfg {lims} {delays})"
 
 
 def c_finals(obs):
@@ -549,8 +566,10 @@ def c_finals(obs):
 
 
 HEADER = """From Verif Require Import model.Actor.
-Definition mkcfg (lims : list (option nat)) : config :=
-  mkC (fun a => nth a lims None) actor_restart_delay_us.
+(* restart delay of an actor: the value its subclass / instance overrides RESTART_DELAY with (recorded from the
+   probe's configuration), else the base-class constant translated from /repo *)
+Definition mkcfg (lims : list (option nat)) (delays : list (option Z)) : config :=
+  mkC (fun a => nth a lims None) (fun a => default actor_restart_delay_us (nth a delays None)).
 Definition opt_outcome_eqb (a b : option outcome) := opt_eqb outcome_eqb a b.
 (* case: configuration (restart limit per actor; the delay is the translated RESTART_DELAY),
    the recorded boundary events, the final state of every task (outcome, Task.cancelling()),
@@ -577,6 +596,17 @@ def case_term(case, obs):
 
 # ----------------------------------------------------------------------------- generation
 LIMITS = [0, 1, 3, None, "default"]
+DELAYS = [None, None, {"how": "base"}, {"how": "subclass", "ms": 250}, {"how": "subclass", "ms": 2000}, {"how": "subclass", "ms": 7000},
+          {"how": "subclass", "ms": 30000}, {"how": "instance", "ms": 250}, {"how": "instance", "ms": 7000}, {"how": "instance", "ms": 30000}]
+
+
+def with_delay(actor, d):
+    return actor if d is None else {**actor, "delay": d}
+
+
+def delay_ms_of(actor):
+    d = actor.get("delay")
+    return 2000 if not d or d["how"] == "base" else d["ms"]
 
 
 def gen_run_script(rng, allow_self=True):
@@ -613,13 +643,15 @@ def interesting_times(case_actor_scripts, delay_ms):
     return sorted(ts)
 
 
-def gen_case(rng, delay_ms=2000):
+def gen_case(rng):
     nact = rng.choice([1, 1, 1, 2])
     actors = []
     for _ in range(nact):
-        actors.append({"limit": rng.choice(LIMITS),
-                       "script": [gen_run_script(rng) for _ in range(rng.choice([0, 1, 2, 3, 5]))]})
-    times = interesting_times(actors[0]["script"], delay_ms) + [rng.randrange(0, 9000) for _ in range(3)]
+        actors.append(with_delay({"limit": rng.choice(LIMITS),
+                                  "script": [gen_run_script(rng) for _ in range(rng.choice([0, 1, 2, 3, 5]))]}, rng.choice(DELAYS)))
+    delay_ms = delay_ms_of(actors[0])
+    times = interesting_times(actors[0]["script"], delay_ms) + [rng.randrange(0, 9000) for _ in range(3)] \
+        + [rng.choice([10000, delay_ms // 3 + 100])]
     ops = []
     style = rng.random()
     if style < 0.85:
@@ -647,7 +679,7 @@ def gen_case(rng, delay_ms=2000):
         else:
             ops.append([t, k, a])
     ops.sort(key=lambda o: o[0])
-    return {"actors": actors, "ops": ops, "settle_ms": rng.choice([0, 3000, 3000, 9000])}
+    return {"actors": actors, "ops": ops, "settle_ms": rng.choice([0, 3000, 3000, 9000, delay_ms + 1000])}
 
 
 def gen_run_case(rng):
@@ -666,8 +698,8 @@ def gen_run_case(rng):
                    "end": rng.choice(["ret", "ret", "exc", "base"]) if k == nruns - 1 else "exc",
                    "on_cancel": [rng.choice(["prop", "ret", "exc"])] if rng.random() < 0.3 else []}
                   for k in range(nruns)]
-        actors.append({"limit": rng.choice([0, 1, 3, None]), "script": script, "name": name,
-                       "cls": "A" if classing == "same" else "ABC"[i]})
+        actors.append(with_delay({"limit": rng.choice([0, 1, 3, None]), "script": script, "name": name,
+                                  "cls": "A" if classing == "same" else "ABC"[i]}, rng.choice(DELAYS[:7])))
     ops = []
     for i in range(nact):
         if rng.random() < 0.25:
@@ -694,7 +726,7 @@ def exhaustive_cases(maxlen):
     scripts = [[{"awaits": [1000], "end": "exc", "on_cancel": ["slowexc"]}, {"awaits": [1000], "end": "ret", "on_cancel": []}]]
     letters = [("start",), ("stop",), ("cancel",), ("wait",), ("add",), ("caw",), ("t", 500), ("t", 2000)]
     extra = {"awaits": [1500], "end": "exc", "on_cancel": ["slowexc"]}
-    for limit in (None, 0, 1):
+    for limit, delay in ((None, None), (0, None), (1, {"how": "subclass", "ms": 500})):
         for n in range(1, maxlen + 1):
             for w in itertools.product(letters, repeat=n):
                 if w[-1][0] == "t":
@@ -710,7 +742,7 @@ def exhaustive_cases(maxlen):
                         ops.append([t, "caw", 0, 1])      # the most recently added task (else the loop task)
                     else:
                         ops.append([t, l[0], 0])
-                yield {"actors": [{"limit": limit, "script": scripts[0]}], "ops": ops, "settle_ms": 0}
+                yield {"actors": [with_delay({"limit": limit, "script": scripts[0]}, delay)], "ops": ops, "settle_ms": 0}
 
 
 def boundary_cases():
@@ -767,6 +799,16 @@ def boundary_cases():
         {"actors": [A(0, [S([5000], "ret", ["slowexc"])])], "ops": [[0, "with", 0, {"dur": 100, "end": "raise"}]], "settle_ms": 500},
         {"actors": [A(None, [S([5000], "ret", ["slowbase"])])],
          "ops": [[0, "with", 0, {"dur": 100, "end": "cancel"}], [50, "add", 0, {"awaits": [1000], "end": "ret", "on_cancel": ["slowexc"]}]], "settle_ms": 500},
+        # RESTART_DELAY overridden in a subclass / on the instance: stop 10 s into a 30 s delay; short delay; two actors
+        {"actors": [{**A(None, [S([100], "exc"), S([100], "ret")]), "delay": {"how": "subclass", "ms": 30000}}],
+         "ops": [[0, "start", 0], [10100, "stop", 0]], "settle_ms": 1000},
+        {"actors": [{**A(None, [S([100], "exc"), S([100], "ret")]), "delay": {"how": "instance", "ms": 30000}}],
+         "ops": [[0, "start", 0], [10100, "cancel", 0]], "settle_ms": 31000},
+        {"actors": [{**A(3, [S([100], "exc"), S([100], "exc"), S([100], "ret")]), "delay": {"how": "instance", "ms": 250}}],
+         "ops": [[0, "start", 0]], "settle_ms": 3000},
+        {"actors": [{**A(1, [S([100], "exc"), S([100], "ret")]), "delay": {"how": "subclass", "ms": 7000}},
+                    {**A(1, [S([100], "exc"), S([100], "ret")]), "delay": {"how": "base"}}],
+         "ops": [[0, "run", [0, 1]], [5000, "wait", 0]], "settle_ms": 9000},
         # default restart limit (unbounded)
         {"actors": [A("default", [S([], "exc")] * 6 + [S([], "ret")])], "ops": [[0, "start", 0]], "settle_ms": 15000},
     ]
@@ -846,6 +888,8 @@ class ActorStream(Stream):
             out.append(f"run_over={len(rb[3])}")
         for a in case["actors"]:
             out.append(f"limit={a['limit']}")
+            d = a.get("delay")
+            out.append("delay=" + ("base" if not d or d["how"] == "base" else f"{d['how']}:{d['ms']}ms"))
         kinds = [e[1] for e in log]
         for e in log:
             if e[1] == "cawcall":
